@@ -17,6 +17,7 @@ import (
 
 	hclog "github.com/hashicorp/go-hclog"
 	plugin "github.com/hashicorp/go-plugin"
+	"github.com/hashicorp/go-plugin/runner"
 )
 
 // TestC13 — SecureConfig: the binary runs iff the checksum equals the digest.
@@ -216,6 +217,35 @@ func TestC13(t *testing.T) {
 			}
 			run(d("of the executed file"), pc.path, sha256.New(), sum(real), true, "")
 			run(d("of the decoy at a/plugin"), pc.path, sha256.New(), sum(decoy), false, "mismatch")
+		}
+	}
+	{
+		sum := func(b []byte) []byte { h := sha256.New(); h.Write(b); return h.Sum(nil) }
+		for name, cs := range map[string][]byte{"digest of the script the runner would start": sum(files["minimal"]), "one byte": {'1'}, "all zeros": make([]byte, 32)} {
+			os.Remove(marker)
+			launched := false
+			c := plugin.NewClient(&plugin.ClientConfig{
+				HandshakeConfig: plugin.HandshakeConfig{MagicCookieKey: "K", MagicCookieValue: "v", ProtocolVersion: 1},
+				Plugins:         map[string]plugin.Plugin{},
+				SecureConfig:    &plugin.SecureConfig{Checksum: cs, Hash: sha256.New()},
+				StartTimeout:    5 * time.Second, Logger: hclog.NewNullLogger(),
+				RunnerFunc: func(l hclog.Logger, cmd *exec.Cmd, tmp string) (runner.Runner, error) {
+					launched = true
+					cmd.Path, cmd.Args = paths["minimal"], []string{paths["minimal"]}
+					return newProcRunner(cmd)
+				},
+			})
+			_, err := c.Start()
+			c.Kill()
+			_, merr := os.Stat(marker)
+			out.Evaluations++
+			out.Distinct++
+			desc := "SecureConfig with a RunnerFunc (no command path to verify), checksum=" + name
+			if launched || merr == nil {
+				out.Violations = append(out.Violations, enumViolation{Case: desc, Class: "S", Msg: fmt.Sprintf("the runner was asked to launch (runner invoked=%v, binary ran=%v, Start error: %v) although no file was verified [%s]", launched, merr == nil, err, desc)})
+			} else if err == nil {
+				out.Violations = append(out.Violations, enumViolation{Case: desc, Class: "S", Msg: "Start succeeded [" + desc + "]"})
+			}
 		}
 	}
 	out.Samples = []any{"file=minimal hash=sha256 checksum=exact", "file=1KiB hash=md5 checksum=bit 7 flipped", "file=minimal hash=sha1 checksum=prefix of 19 bytes"}
